@@ -210,10 +210,10 @@ class _PythonFnFactory(object):
     # The lint override is a false positive.
     new_fn = bound_factory(**self._extra_locals)  # pylint:disable=not-callable
 
-    if defaults:
-      new_fn.__defaults__ = defaults
-    if kwdefaults:
-      new_fn.__kwdefaults__ = kwdefaults
+    # Assign unconditionally: the generated code carries None placeholders for
+    # every default, which must not survive when the source function has none.
+    new_fn.__defaults__ = defaults
+    new_fn.__kwdefaults__ = kwdefaults
 
     return new_fn
 
